@@ -455,6 +455,10 @@ func (p *Proxy) handleConnectRequest(ctx *Context, req *http.Request, session *S
 	} else {
 		res, cconn, cerr = p.connect(req)
 	}
+	// The deadline on the client connection was set before this request was
+	// read, and the connection attempt may have outlasted it: the answer below
+	// is due now, whatever time has passed since.
+	conn.SetDeadline(time.Now().Add(p.timeout))
 	if cerr != nil || cconn == nil {
 		if cerr != nil {
 			log.Errorf("martian: failed to CONNECT: %v", cerr)
@@ -508,7 +512,9 @@ func (p *Proxy) handleConnectRequest(ctx *Context, req *http.Request, session *S
 		log.Errorf("martian: got error while writing response back to client: %v", err)
 	}
 	if err := brw.Flush(); err != nil {
+		// A client that has not been told about the tunnel cannot use it.
 		log.Errorf("martian: got error while flushing response back to client: %v", err)
+		return errClose
 	}
 
 	// Copy between the connections themselves: bytes must not wait in a buffer
